@@ -463,8 +463,11 @@ class RequestHandler(BaseProtocol, Generic[_Request]):
         pass
 
     def data_received(self, data: bytes) -> None:
-        if self._force_close or self._close:
+        if (self._force_close or self._close) and not self._request_in_progress:
             return
+        # A closing connection takes no new requests (start() leaves its loop),
+        # but the request being handled still gets its input, e.g. the rest of
+        # its body while the server waits for handlers during shutdown.
         # parse http messages
         messages: Sequence[_MsgType]
         if self._payload_parser is None and not self._upgraded:
